@@ -1,7 +1,8 @@
 #!/bin/bash
 # runs every check against every property-preserving change; every run must exit 0
-cd /verif
-for d in /verif/seeded/neutral/N*; do
+here="$(cd "$(dirname "$0")/.." && pwd)"
+cd "$here"
+for d in ${NEUTRALS:-$here/seeded/neutral/N*}; do
 	for p in ${PROPS:-C06 C07 C08 C13 C14}; do
 		VERIF_BUDGET_S=${VERIF_BUDGET_S:-30} tools/mutcheck.sh $d/patch.diff $p
 	done
